@@ -175,8 +175,10 @@ def parse_cbmc_json(text):
         if 'cProverStatus' in el: status = el['cProverStatus']
     return results, msgs, status
 
-def classify_label(desc, prop_name):
+def classify_label(desc, prop_name, contract_prop=None):
     """which property an obligation belongs to"""
+    if contract_prop and re.match(r'^Check (ensures|requires|assigns|invariant|decreases|that .* (is assignable|is valid))', desc):
+        return [contract_prop]     # obligations generated by goto-instrument --dfcc from the spliced contract clauses
     m = re.match(r'^(C\d\d)(/C\d\d)*: ', desc)
     if m:
         return re.findall(r'C\d\d', desc.split(': ')[0])
@@ -199,6 +201,32 @@ def extract_inputs(trace):
             out.append((tag, n))
     return out
 
+def race(cbmc, backends, timeout):
+    """portfolio: the same obligations handed to several back ends; the first conclusive answer (every obligation
+    SUCCESS or FAILURE, no ERROR) is taken, the others are killed"""
+    t0 = time.time(); procs = []
+    for b in backends:
+        extra = [] if b == 'sat' else (['--sat-solver', 'cadical'] if b == 'cadical' else ['--' + b])
+        procs.append((b, subprocess.Popen(cbmc + extra, stdout=subprocess.PIPE, stderr=subprocess.PIPE)))
+    outs = {}
+    try:
+        while time.time() - t0 < timeout and len(outs) < len(procs):
+            for b, p in procs:
+                if b in outs or p.poll() is None: continue
+                o, e = p.communicate(); o = o.decode('utf-8', 'replace')
+                outs[b] = o
+                res, msgs, status = parse_cbmc_json(o)
+                if res is not None and all(x.get('status') in ('SUCCESS', 'FAILURE') for x in res):
+                    return p.returncode, o, '', time.time() - t0, b
+            time.sleep(0.05)
+        if len(outs) == len(procs):
+            b = backends[0]; return 1, outs[b], 'no back end gave a conclusive answer', time.time() - t0, 'none'
+        return -9, '', 'TIMEOUT', time.time() - t0, 'none'
+    finally:
+        for b, p in procs:
+            if p.poll() is None:
+                p.kill(); p.communicate()
+
 def run_job(job, tu, safety, scratch, want_trace=False, only_props=None):
     """returns dict(result list, times, error)"""
     r = {'job': job['id'], 'obligations': [], 'error': None, 'times': {}, 'cmd': ''}
@@ -210,6 +238,7 @@ def run_job(job, tu, safety, scratch, want_trace=False, only_props=None):
         if safety: flags += SAFETY_FLAGS
         flags += job.get('cbmc_flags', [])
         if job.get('backend') in ('cvc5', 'z3'): flags += ['--' + job['backend']]
+        if job.get('backend') == 'cadical': flags += ['--sat-solver', 'cadical']
         if job.get('paths'): flags += ['--paths', 'lifo']
         if want_trace: flags += ['--trace']
         if job.get('mode') == 'dfcc':
@@ -234,7 +263,12 @@ def run_job(job, tu, safety, scratch, want_trace=False, only_props=None):
             gb = tu.gb()
             cbmc = ['cbmc', gb, '--function', entry] + flags
             r['cmd'] = ' '.join(['cbmc', '<lowered.gb>', '--function', entry] + flags)
-        rc, o, e, t = sh(cbmc, timeout=job.get('timeout', 600), memlimit_gb=job.get('mem_gb', 12))
+        if job.get('backend') == 'portfolio':
+            rc, o, e, t, won = race(cbmc, job.get('portfolio', ['sat', 'cvc5', 'z3']), job.get('timeout', 600))
+            r['backend_used'] = won
+        else:
+            rc, o, e, t = sh(cbmc, timeout=job.get('timeout', 600), memlimit_gb=job.get('mem_gb', 12))
+            r['backend_used'] = job.get('backend', 'sat')
         r['times']['cbmc'] = t
         if rc == -9:
             raise ToolLimit('cbmc time-out after %ss' % job.get('timeout', 600))
@@ -249,7 +283,7 @@ def run_job(job, tu, safety, scratch, want_trace=False, only_props=None):
         r['times']['solver'] = st
         for res in results:
             desc = res.get('description', ''); name = res.get('property', '')
-            ob = {'name': name, 'desc': desc, 'status': res.get('status'), 'props': classify_label(desc, name),
+            ob = {'name': name, 'desc': desc, 'status': res.get('status'), 'props': classify_label(desc, name, job['props'][0] if job.get('mode') == 'dfcc' else None),
                   'function': (res.get('sourceLocation') or {}).get('function', ''), 'line': (res.get('sourceLocation') or {}).get('line', '')}
             if res.get('status') == 'FAILURE' and 'trace' in res:
                 ob['inputs'] = extract_inputs(res['trace'])
@@ -451,7 +485,9 @@ def run_check(prop, a, jobs, findings, scratch, seed, t_start):
 def write_evidence(prop, tier, seed, jobs, results, tus, carriers, tv, total, discharged, canaries, samples, known, vio_out, problems, undecided, solver_s, cbmc_s, wall, findings):
     meta = {}
     mp = os.path.join(PROOFS, 'meta.json')
-    if os.path.exists(mp): meta = json.load(open(mp)).get(prop, {})
+    common = []
+    if os.path.exists(mp):
+        allm = json.load(open(mp)); meta = allm.get(prop, {}); common = allm.get('_common_assumptions', [])
     bounded = [{'job': j['id'], 'bound': j['bounded']} for j in jobs if j.get('bounded')]
     kf_obl = len(known)
     ev = {
@@ -465,7 +501,7 @@ def write_evidence(prop, tier, seed, jobs, results, tus, carriers, tv, total, di
             'functions_under_contract_count': len(carriers),
             'jobs': [{'id': j['id'], 'mode': j.get('mode', 'harness'), 'entry': j['entry'], 'defs': j.get('defs'), 'cbmc_s': round(r['times'].get('cbmc', 0), 1),
                       'solver_s': round(r['times'].get('solver', 0), 2), 'obligations': len([o for o in r['obligations'] if prop in o['props'] or 'UNWIND' in o['props']]),
-                      'backend': j.get('backend', 'sat (cbmc default)'), 'engine': 'path-wise' if j.get('paths') else 'merging'} for j, r in zip(jobs, results)][:400],
+                      'backend': r.get('backend_used', j.get('backend', 'sat')), 'engine': 'path-wise' if j.get('paths') else 'merging'} for j, r in zip(jobs, results)][:400],
             'case_keys': sorted(set(j['case_key'] for j in jobs if j.get('case_key')))[:400],
             'exhaustive': bool(meta.get('exhaustive_case_split', False)),
             'bounded': bounded,
@@ -479,7 +515,7 @@ def write_evidence(prop, tier, seed, jobs, results, tus, carriers, tv, total, di
             'violations': vio_out, 'tool_limits': problems, 'undecided': undecided,
             'explanation': meta.get('explanation', ''),
         },
-        'assumptions': meta.get('assumptions', []),
+        'assumptions': meta.get('assumptions', []) + common,
         'wall_s': round(wall, 1), 'violations': len(vio_out),
     }
     if ev['level'] == 'proof' and kf_obl:
